@@ -1,5 +1,5 @@
 (* C17 — part f: the directives-only C pass against the ordinary C pass.
-   On a text without backslashes and without / on # lines ([cwf]):
+   On a text without backslashes whose # lines satisfy the scanner's guards ([cwf]):
    - if the non-directive lines hold no / ' " the two passes are the same
      function ([c_source_flag]);
    - replacing every / ' " of the non-directive lines by a letter ([mask])
@@ -11,10 +11,10 @@ From Coq Require Import NArith Bool Ascii String List.
 From CBI Require Import Lib.Res Model.C17 Spec.C17 Proofs.C17a Proofs.C17b Proofs.C17c Proofs.C17d.
 Import ListNotations.
 
-Definition is_slk (k : cls) : bool := match k with kSl => true | _ => false end.
-Definition nosl (cs : list ascii) : bool := forallb (fun c => negb (is_slk (cls_of c))) cs.
 Definition is_dirline (cs : list ascii) : bool := match fnb cs with Some kh => is_hashk kh | None => false end.
-Definition cwf_line (cs : list ascii) : bool := nobs cs && (if is_dirline cs then nosl cs else true).
+(* a # line on its own: the guards of Spec/C17.v do not depend on the Fortran context *)
+Definition dir_ok (cs : list ascii) : bool := cguards (SBol K0, mU) cs && eguard (sfold (SBol K0, mU) cs).
+Definition cwf_line (cs : list ascii) : bool := nobs cs && (if is_dirline cs then dir_ok cs else true).
 Definition cwf (ls : list pline) : bool := forallb (fun pl => cwf_line (fst pl)) ls.
 
 Definition inertk (k : cls) : bool := match k with kSl | kDq | kSq => false | _ => true end.
@@ -47,40 +47,34 @@ Proof.
   - rewrite (blank_char_nonws c b W) in BL. discriminate.
 Qed.
 
-Lemma cproc_in_dir_d d cs : forall st b, cpp_stack st = true -> category b = CPPDIR -> nobs cs = true -> nosl cs = true ->
-  exists st' b', cprocess d (st, b) cs = Ok (st', b') /\ cprocess true (st, b) cs = Ok (st', b') /\
-                 cpp_stack st' = true /\ category b' = CPPDIR.
+Lemma cstep_dir_flag fl d c b : cstep fl (dstack d, b) c = cstep true (dstack d, b) c.
+Proof. destruct d; unfold cstep, cstep1, dstack; destruct (cls_of c); reflexivity. Qed.
+
+Lemma cproc_in_dir_flag fl cs : forall d b k m, category b = CPPDIR -> cguards (SDir k d, m) cs = true ->
+  cprocess fl (dstack d, b) cs = cprocess true (dstack d, b) cs.
 Proof.
-  induction cs as [|c cs IH]; intros st b HS HC HN HL; [exists st, b; repeat split; assumption|].
-  cbn [nobs forallb] in HN. apply andb_true_iff in HN. destruct HN as [N1 N2]. fold (nobs cs) in N2.
-  cbn [nosl forallb] in HL. apply andb_true_iff in HL. destruct HL as [L1 L2]. fold (nosl cs) in L2.
-  cbn [cprocess].
-  assert (E : exists st1 b1, cstep d (st, b) c = Ok (st1, b1) /\ cstep true (st, b) c = Ok (st1, b1) /\
-                             cpp_stack st1 = true /\ category b1 = CPPDIR).
-  { unfold is_bs in N1.
-    destruct st as [|[] [|[] [|[] [|? ?]]]]; try discriminate; unfold cstep, cstep1;
-      destruct (cls_of c) eqn:K; try discriminate;
-      eexists; eexists; (split; [reflexivity|split; [reflexivity|split;
-        [reflexivity|first [apply cat_dir_char; exact HC | apply cat_dir_non; exact HC]]]]). }
-  destruct E as [st1 [b1 [E1 [E1' [E2 E3]]]]]. rewrite E1, E1'. exact (IH st1 b1 E2 E3 N2 L2).
+  induction cs as [|c cs IH]; intros d b k m HC HG; [reflexivity|].
+  cbn [cguards] in HG. apply andb_true_iff in HG. destruct HG as [G1 G2]. cbn [sstep] in G2.
+  cbn [cprocess]. rewrite cstep_dir_flag. destruct (cstep_dir true d c b k m HC G1) as [b1 [E1 E2]]. rewrite E1.
+  exact (IH _ b1 k m E2 G2).
 Qed.
 
-Lemma cproc_dir_d d cs : forall b, fresh b = true -> fnb cs = Some kHash -> nobs cs = true -> nosl cs = true ->
-  exists st' b', cprocess d ([CTop], b) cs = Ok (st', b') /\ cprocess true ([CTop], b) cs = Ok (st', b') /\
-                 cpp_stack st' = true /\ category b' = CPPDIR.
+Lemma cproc_dir_flag fl cs : forall b k, fresh b = true -> fnb cs = Some kHash -> cguards (SBol k, mU) cs = true ->
+  cprocess fl ([CTop], b) cs = cprocess true ([CTop], b) cs.
 Proof.
-  induction cs as [|c cs IH]; intros b HF HH HN HL; [discriminate|].
-  cbn [nobs forallb] in HN. apply andb_true_iff in HN. destruct HN as [N1 N2]. fold (nobs cs) in N2.
-  cbn [nosl forallb] in HL. apply andb_true_iff in HL. destruct HL as [L1 L2]. fold (nosl cs) in L2.
+  induction cs as [|c cs IH]; intros b k HF HH HG; [discriminate|].
+  cbn [cguards] in HG. apply andb_true_iff in HG. destruct HG as [G1 G2].
   cbn [fnb] in HH. cbn [cprocess]. destruct (is_ws (cls_of c)) eqn:W.
   - assert (E : forall d', cstep d' ([CTop], b) c = Ok ([CTop], app_char c b)).
     { intros d'. unfold cstep, cstep1. destruct (cls_of c); try discriminate; reflexivity. }
-    rewrite !E. apply IH; [apply fresh_ws; assumption|exact HH|exact N2|exact L2].
+    rewrite !E.
+    assert (E2 : sstep (SBol k, mU) (cls_of c) = (SBol k, mU)) by (destruct (cls_of c); try discriminate; reflexivity).
+    rewrite E2 in G2. apply (IH _ k); [apply fresh_ws; assumption|exact HH|exact G2].
   - injection HH as HH.
     assert (E : forall d', cstep d' ([CTop], b) c = Ok ([CCpp; CTop], app_non c b)).
     { intros d'. unfold cstep, cstep1. rewrite HH, (fresh_blank b HF). reflexivity. }
-    rewrite !E.
-    apply cproc_in_dir_d; [reflexivity|apply cat_hash_blank; [exact HH|apply fresh_blank; exact HF]|exact N2|exact L2].
+    rewrite !E. rewrite HH in G2. cbn [sstep] in G2.
+    apply (cproc_in_dir_flag fl cs DTxt _ k mM); [apply cat_hash_blank; [exact HH|apply fresh_blank; exact HF]|exact G2].
 Qed.
 
 Lemma is_dirline_hash cs : is_dirline cs = true -> fnb cs = Some kHash.
@@ -98,10 +92,12 @@ Proof.
   unfold c_line. rewrite (body_nobs cs HN). cbn [andb negb clean cl_stk cl_cur cl_lines cl_out].
   unfold cout_ok. destruct (is_dirline cs) eqn:DL.
   - pose proof (is_dirline_hash cs DL) as F. rewrite F. cbn [is_hashk].
-    destruct (cproc_dir_d d cs osl0 eq_refl F HN HL) as [st' [b' [E1 [E1' [E2 E3]]]]].
-    rewrite E1, E1'. destruct (cpp_stack_newline st' b' E2) as [T1 T2]. rewrite T1. cbn [negb]. rewrite T2.
-    cbn [top_is_block negb]. unfold cflush. rewrite join0_cat, E3.
-    unfold is_blank. rewrite E3. cbn [app].
+    unfold dir_ok in HL. apply andb_true_iff in HL. destruct HL as [HG HE].
+    rewrite (cproc_dir_flag d cs osl0 K0 eq_refl F HG).
+    destruct (cproc_dir true cs osl0 K0 eq_refl F HG) as [ds [b' [E1 [E3 ES]]]].
+    rewrite E1. rewrite ES in HE. destruct (dir_newline ds b' K0 mM HE E3) as [T1 [b2 [T2 T3]]]. rewrite T1. cbn [negb]. rewrite T2.
+    cbn [top_is_block negb]. unfold cflush. rewrite join0_cat, T3.
+    unfold is_blank. rewrite T3. cbn [app].
     eexists. split; [reflexivity|]. split; [reflexivity|]. eexists. reflexivity.
   - pose proof (is_dirline_nohash cs DL) as F.
     rewrite (cproc_plain_d d cs osl0 HN HI (fun _ => F)).
@@ -254,22 +250,27 @@ Proof.
 Qed.
 
 (* ---------- wf implies cwf ---------- *)
-Lemma cguards_dir_nosl cs : forall k m, cguards (SDir k, m) cs = true -> nosl cs = true.
+Lemma dir_k_indep2 cs : forall d k k' m,
+  cguards (SDir k d, m) cs = cguards (SDir k' d, m) cs /\
+  eguard (sfold (SDir k d, m) cs) = eguard (sfold (SDir k' d, m) cs).
 Proof.
-  induction cs as [|c cs IH]; intros k m HG; [reflexivity|].
-  cbn [cguards] in HG. apply andb_true_iff in HG. destruct HG as [G1 G2]. cbn [sstep] in G2.
-  cbn [nosl forallb]. fold (nosl cs). rewrite (IH _ _ G2), andb_true_r.
-  destruct (cls_of c); try reflexivity. discriminate.
+  induction cs as [|c cs IH]; intros d k k' m.
+  - split; [reflexivity|]. destruct d; reflexivity.
+  - cbn [cguards]. rewrite !sfold_cons. cbn [sstep]. destruct (IH (dstep d (cls_of c)) k k' m) as [A B].
+    rewrite A, B. split; [|reflexivity]. f_equal; destruct (cls_of c), d; reflexivity.
 Qed.
 
-Lemma cguards_bol_nosl cs : forall k, cguards (SBol k, mU) cs = true -> fnb cs = Some kHash -> nosl cs = true.
+Lemma dir_k_indep cs : forall k k', fnb cs = Some kHash ->
+  cguards (SBol k, mU) cs = cguards (SBol k', mU) cs /\
+  eguard (sfold (SBol k, mU) cs) = eguard (sfold (SBol k', mU) cs).
 Proof.
-  induction cs as [|c cs IH]; intros k HG HF; [reflexivity|].
-  cbn [cguards] in HG. apply andb_true_iff in HG. destruct HG as [G1 G2].
-  cbn [fnb] in HF. cbn [nosl forallb]. fold (nosl cs). destruct (is_ws (cls_of c)) eqn:W.
-  - assert (E : sstep (SBol k, mU) (cls_of c) = (SBol k, mU)) by (destruct (cls_of c); try discriminate; reflexivity).
-    rewrite E in G2. rewrite (IH _ G2 HF), andb_true_r. destruct (cls_of c); try discriminate; reflexivity.
-  - injection HF as HF. rewrite HF in G2 |- *. cbn [sstep] in G2. rewrite (cguards_dir_nosl _ _ _ G2). reflexivity.
+  induction cs as [|c cs IH]; intros k k' HF; [discriminate|].
+  cbn [fnb] in HF. cbn [cguards]. rewrite !sfold_cons. destruct (is_ws (cls_of c)) eqn:W.
+  - assert (E : forall k0, sstep (SBol k0, mU) (cls_of c) = (SBol k0, mU)) by (intros k0; destruct (cls_of c); try discriminate; reflexivity).
+    rewrite !E. destruct (IH k k' HF) as [A B]. rewrite A, B. split; [|reflexivity].
+    f_equal; destruct (cls_of c); try discriminate; reflexivity.
+  - injection HF as HF. rewrite HF. cbn [sstep]. destruct (dir_k_indep2 cs DTxt k k' mM) as [A B].
+    rewrite A, B. split; reflexivity.
 Qed.
 
 Lemma wf_from_cwf ls : forall k, wf_from k ls = true -> cwf ls = true.
@@ -280,7 +281,8 @@ Proof.
   cbn [cwf forallb fst]. fold (cwf r). rewrite (IH _ W3), andb_true_r.
   unfold cwf_line. rewrite (cguards_nobs _ _ W1). cbn [andb].
   destruct (is_dirline cs) eqn:DL; [|reflexivity].
-  exact (cguards_bol_nosl cs k W1 (is_dirline_hash cs DL)).
+  destruct (dir_k_indep cs k K0 (is_dirline_hash cs DL)) as [A B].
+  unfold dir_ok. rewrite <- A, <- B, W1. exact W2.
 Qed.
 
 Theorem fortran_directives_as_C_path ls : wf ls = true ->
